@@ -114,6 +114,7 @@ RULES = {
     'P3t': ('rules_extra', 'tag-bit constants are complementary, never-written slots carry the tag bit, tag test / pin re-check compare unmodified counts'),
     'P9g': ('rules_extra', 'into_single: clone before dropping the original, test the count after the drop'),
     'P15m': ('rules_extra', 'index arithmetic helpers keep their shape: mask = wrap-1, index = count & mask, new count = (count + by) & count mask, past / get_previous, refreshed tail = head - scan'),
+    'P15n': ('rules_extra2', 'no narrowing integer conversion of counts / distances / indices / capacities in the queue modules'),
     'P3u': ('rules_extra2', 'no destructor of the crate that destroys a payload or moves a position runs on the unwind path of user code (view closure, Clone)'),
     'P13g': ('rules_extra2', 'a value of a crate type withheld from its destructor (forget / ManuallyDrop) has every owning field moved out or destroyed on the same path'),
     'P13e': ('rules_extra2', 'alloc / ToFree shapes: allocate = forgotten with_capacity(n); deallocate = from_raw_parts(p, 0, n); do_free drops num then deallocates num'),
@@ -131,7 +132,7 @@ RULES = {
 # breaking any of them shows up as lost / duplicated / reordered / overwritten / torn / double-dropped values, i.e.
 # under several of C01..C06 and C12 at once, so all of those checks evaluate all of them
 DATAPATH = ['P1a', 'P1b', 'P1c', 'P1d', 'P1e', 'P1f', 'P1g', 'P1h', 'P2a', 'P2b', 'P2e', 'P3a', 'P3b', 'P3c', 'P3e', 'P3f', 'P3g', 'P3t',
-            'P4', 'P4a', 'P4e', 'P5a', 'P5b', 'P5c', 'P5d', 'P9b', 'P10a', 'P10b', 'P10f', 'P10g', 'P10h', 'P9g', 'P9f', 'W7', 'P15', 'P15m', 'P15w', 'S1', 'W1', 'W2', 'W3', 'W5', 'W8',
+            'P4', 'P4a', 'P4e', 'P5a', 'P5b', 'P5c', 'P5d', 'P9b', 'P10a', 'P10b', 'P10f', 'P10g', 'P10h', 'P9g', 'P9f', 'W7', 'P15', 'P15m', 'P15n', 'P15w', 'S1', 'W1', 'W2', 'W3', 'W5', 'W8',
             'W11', 'W13', 'P15i', 'O1', 'O2']
 
 # rules of the futures adapters and of parking / waking: a broken one shows up under C13, C14 or C15 (and C11 when the
@@ -151,17 +152,17 @@ PROPS = {
     # ... and a futures Stream only learns of the last value / of the end when its parked task is woken: the stream
     # side of the parking protocol belongs here as well
     'C07': ['P3f', 'P6b', 'W6', 'P2e', 'P8', 'P7a', 'P7b', 'P7f', 'P7i', 'S3', 'O3', 'P2d', 'P7c', 'P7d', 'P7g', 'P7h', 'P7j', 'P11c', 'P11g'],
-    'C08': ['P7a', 'P7b', 'P7f', 'P7h', 'P7i', 'P7k', 'P2d', 'P8', 'P6b', 'P6c', 'P6d'],
-    'C09': ['P1a', 'P1b', 'P1h', 'P3f', 'P6b', 'P9b', 'P9c', 'P9f', 'P9g', 'P10a', 'P10b', 'P10e', 'P10h', 'P11a', 'P11b', 'P11c', 'S1', 'S3', 'W10', 'W13', 'P15i', 'C13map', 'P15', 'P15m', 'P15w', 'P7c', 'P7d', 'P7e', 'P7f', 'P7g', 'P7h', 'P7j'],
-    'C10': ['P10a', 'P10b', 'P10c', 'P10d', 'P10f', 'P10g', 'P10h', 'P15', 'P15m', 'P15w', 'P3t', 'P5a', 'S5', 'W9'],
-    'C11': ['P9a', 'P9b', 'P9c', 'P9d', 'P9f', 'P10b', 'P10h', 'P11i', 'P10d', 'P10e', 'P10f', 'P10g', 'P1b', 'P11e', 'P11g', 'P12d'],
-    'C12': DATAPATH + ['W6'],
+    'C08': ['P7a', 'P7b', 'P7f', 'P7h', 'P7i', 'P7k', 'P2d', 'P8', 'P6b', 'P6c', 'P6d', 'P3f', 'O3'],
+    'C09': ['P1a', 'P1b', 'P1h', 'P3f', 'P6b', 'P9b', 'P9c', 'P9f', 'P9g', 'P10a', 'P10b', 'P10e', 'P10h', 'P11a', 'P11b', 'P11c', 'S1', 'S3', 'W10', 'W13', 'P15i', 'C13map', 'P15', 'P15m', 'P15w', 'P7c', 'P7d', 'P7e', 'P7f', 'P7g', 'P7h', 'P7j', 'P1f', 'P1g', 'P3a', 'P3e', 'P3g', 'P4', 'P4e'],
+    'C10': ['P10a', 'P10b', 'P10c', 'P10d', 'P10f', 'P10g', 'P10h', 'P15', 'P15m', 'P15n', 'P15w', 'P3t', 'P5a', 'S5', 'W9'],
+    'C11': ['P9a', 'P9b', 'P9c', 'P9d', 'P9f', 'P10b', 'P10h', 'P11i', 'P10d', 'P10e', 'P10f', 'P10g', 'P1b', 'P11e', 'P11g', 'P12d', 'W7', 'W9', 'S5'],
+    'C12': DATAPATH + ['W6', 'P9a'],
     'C13': FUTURES + ['C13map', 'P2c', 'P9c', 'W10'],
     'C14': FUTURES,
     'C15': FUTURES + ['P7a', 'S3'],
-    'C16': ['P6a', 'P12k', 'P13e', 'W9', 'W12', 'P12a', 'P12b', 'P12c', 'P12d', 'P12e', 'P12f', 'P12g', 'P12i', 'P13d', 'P10c', 'P10d', 'P10f', 'P9e'],
+    'C16': ['P6a', 'P12k', 'P13e', 'W9', 'W12', 'P12a', 'P12b', 'P12c', 'P12d', 'P12e', 'P12f', 'P12g', 'P12i', 'P13d', 'P10c', 'P10d', 'P10f', 'P9e', 'S5'],
     'C17': ['P6a', 'P12k', 'P13e', 'P13f', 'P13g', 'P12e', 'P12f', 'P12g', 'P12h', 'P12i', 'P13a', 'P13b', 'P13d', 'P9e', 'P10c', 'P10d'],
-    'C18': ['P14', 'P14n', 'P7k'],
+    'C18': ['P14', 'P14n', 'P7k', 'P3b', 'P3t', 'P1b'],
 }
 
 UNDECIDED = {
